@@ -142,7 +142,7 @@ fn subst(template_bytes: &[u8], pat: &[u8], with: &[u8]) -> Vec<u8> {
     out
 }
 
-fn check_n(ctx: &mut Ctx, n: i128, positions: &[Pos]) {
+fn check_n(ctx: &mut Ctx, n: i128, positions: &[Pos], all_carriers: bool) {
     let pat = rcbor::det(&ph());
     let pat2 = rcbor::det(&Item::Tag(PLACEHOLDER + 1, Box::new(Item::Null)));
     let pat3 = rcbor::det(&ph_next());
@@ -173,6 +173,20 @@ fn check_n(ctx: &mut Ctx, n: i128, positions: &[Pos]) {
             let in_i64 = n >= i64::MIN as i128 && n <= i64::MAX as i128;
             ctx.count(if in_i64 { "n-in-i64" } else { "n-outside-i64" });
             let out = decode_oracle(ctx, p.ty, &bytes, p.name, true);
+            // the same map wherever such a map can occur: every carrier root, counter signatures
+            // (bare / array forms, later elements, two levels), later signers / recipients, key sets
+            if (p.ty == Ty::Header || p.ty == Ty::Key) && (all_carriers || ei == 0) && (p.interpreting || ei == 0) {
+                let carriers = if p.ty == Ty::Header { crate::hostile::header_carriers(&bytes) } else { crate::hostile::key_carriers(&bytes) };
+                let pick = if all_carriers { usize::MAX } else { ctx.rng.below(carriers.len()) };
+                for (ci, (cty, cb, cname)) in carriers.into_iter().enumerate().skip(1) {
+                    if pick != usize::MAX && ci != pick {
+                        continue;
+                    }
+                    ctx.count("carried");
+                    ctx.count(&format!("carrier:{}", cname));
+                    decode_oracle(ctx, cty, &cb, cname, false);
+                }
+            }
             if let Outcome::Accepted(c, m) = out {
                 // the same value rebuilt in memory (no retained protected bytes) must encode the
                 // integer too
@@ -249,19 +263,19 @@ impl Check for C15 {
         match phase {
             0 => {
                 let n = lattice()[idx as usize];
-                check_n(ctx, n, &pos);
+                check_n(ctx, n, &pos, true);
             }
             _ => {
                 let bits = ctx.rng.below(66) as u32;
                 let mag: u128 = if bits == 0 { 0 } else { ((ctx.rng.next() as u128) | ((ctx.rng.next() as u128 & 1) << 64)) & ((1u128 << bits.min(65)) - 1) };
                 let n: i128 = if ctx.rng.coin() { mag as i128 } else { -1 - (mag as i128) };
                 let n = n.clamp(gen::CBOR_MIN, gen::CBOR_MAX);
-                check_n(ctx, n, &pos);
+                check_n(ctx, n, &pos, false);
             }
         }
     }
     fn rule(&self) -> String {
-        "integers n from a boundary lattice (0, +-1, 23/24, 2^8, 2^16, 2^32, 2^63, 2^64 boundaries +-2; every power of two +-1 of both signs; registered identifiers shifted by 2^8, 2^16, 2^32, 2^63, 2^64 and sign-flipped: the aliases a truncating or wrapping conversion would create) plus log-uniform samples over [-2^64, 2^64-1], each planted at 70 positions (bare and registry label types, header/key/claims labels, alg in header (also inside a protected bstr), key and KDF context, kty, content type, crit and key_ops elements, party nonces, exp/nbf/iat, key data length, and uninterpreted extra values incl. nested) in every encoding (all head widths >= minimal, bignum with 0-3 leading zeros). Oracle: the reference model's verdict for that position (exact value, or out-of-range error when n is the only fault, or another stated reason such as unregistered), extras preserved exactly, accepted values re-encode to an integer that reads back as n. Non-trivial = distinct (position, n).".into()
+        "integers n from a boundary lattice (0, +-1, 23/24, 2^8, 2^16, 2^32, 2^63, 2^64 boundaries +-2; every power of two +-1 of both signs; registered identifiers shifted by 2^8, 2^16, 2^32, 2^63, 2^64 and sign-flipped: the aliases a truncating or wrapping conversion would create) plus log-uniform samples over [-2^64, 2^64-1], each planted at 70 positions (bare and registry label types, header/key/claims labels, alg in header (also inside a protected bstr), key and KDF context, kty, content type, crit and key_ops elements, party nonces, exp/nbf/iat, key data length, and uninterpreted extra values incl. nested) in every encoding (all head widths >= minimal, bignum with 0-3 leading zeros); every header-map and key-map case is repeated inside 28 header carriers (the protected / unprotected buckets of every structure, counter signatures in bare and array form at first and later positions and two levels deep, later signers and recipients) and 4 key-set positions. Oracle: the reference model's verdict for that position (exact value, or out-of-range error when n is the only fault, or another stated reason such as unregistered), extras preserved exactly, accepted values re-encode to an integer that reads back as n. Non-trivial = distinct (position, n).".into()
     }
     fn assumptions(&self) -> Vec<String> {
         super::std_assumptions()
